@@ -41,6 +41,7 @@ def failure_kinds(flavour):
     kinds = [("raise", k, "exception") for k in common.EXC_KINDS]
     if flavour == "threading":
         kinds.append(("raise", "StopIteration", "exception"))
+        kinds.append(("raise", "EndOfStream", "exception"))  # a subclass of StopIteration
     base = list(common.BASE_KINDS)
     if flavour != "asyncio":
         base.append("AsyncioCancelledError")
@@ -69,14 +70,14 @@ def plan(tier, seed):
         specs += [dict(seed=seed, shard="control-%d" % i, kind="control", n=20) for i in range(4)]
         specs += [dict(seed=seed, shard="rerun-%d" % i, kind="rerun", n=30) for i in range(4)]
         specs += [dict(seed=seed, shard="pending-%d" % i, kind="pending", n=10) for i in range(4)]
-        specs += [dict(seed=seed, shard="known", kind="known", n=2), dict(seed=seed, shard="mixed", kind="mixed", n=30), dict(seed=seed, shard="adopting", kind="adopting", n=20), dict(seed=seed, shard="slowclean", kind="slowclean", n=4)]
+        specs += [dict(seed=seed, shard="known", kind="known", n=2), dict(seed=seed, shard="mixed", kind="mixed", n=30), dict(seed=seed, shard="adopting", kind="adopting", n=20), dict(seed=seed, shard="slowclean", kind="slowclean", n=4), dict(seed=seed, shard="dependent", kind="dependent", n=12)]
     else:
         specs = [dict(seed=seed, shard="product-%d" % i, kind="product", part=i, parts=8, stride=9, repeat=1, n=1) for i in range(8)]
         specs += [dict(seed=seed, shard="random-%d" % i, kind="random", n=8) for i in range(6)]
         specs += [dict(seed=seed, shard="control-0", kind="control", n=6)]
         specs += [dict(seed=seed, shard="rerun-%d" % i, kind="rerun", n=6) for i in range(2)]
         specs += [dict(seed=seed, shard="pending-%d" % i, kind="pending", n=2) for i in range(3)]
-        specs += [dict(seed=seed, shard="known", kind="known", n=1), dict(seed=seed, shard="mixed", kind="mixed", n=3), dict(seed=seed, shard="adopting", kind="adopting", n=3), dict(seed=seed, shard="slowclean", kind="slowclean", n=1)]
+        specs += [dict(seed=seed, shard="known", kind="known", n=1), dict(seed=seed, shard="mixed", kind="mixed", n=3), dict(seed=seed, shard="adopting", kind="adopting", n=3), dict(seed=seed, shard="slowclean", kind="slowclean", n=1), dict(seed=seed, shard="dependent", kind="dependent", n=3)]
     del total
     return specs
 
@@ -285,6 +286,24 @@ def gen_slowclean_case(rnd, spec):
             "meta": {"kind": "slowclean", "fail": [[flavour, how, what, "exception", "queued", True]], "meta_runner": False}}
 
 
+def gen_dependent_case(rnd, spec):
+    """A failure beside a trio payload whose cleanup drains what an asyncio payload delivers until *that* one is torn down:
+    both are told to stop side by side, so the run ends."""
+    # (the failing payload is not a trio payload: a trio run reports a failure when all its payloads have finished their
+    # cleanup, so a trio cleanup cannot wait for what only happens after that report - a circular wait, not generated)
+    flavour = ["threading", "asyncio"][spec.get("case_index", 0) % 2]
+    how, what = rnd.choice([("raise", "LookupError"), ("raise", "CustomWithArgs"), ("return", "str")])
+    gen = {"accept_delay": 0.03, "services": [], "grace": 0.2, "payloads": [
+        {"id": "sink", "flavour": "trio", "when": "queued", "program": [["block"]], "cleanup": {"kind": "shielded", "dur": 0, "await_gate": "drained"}},
+        {"id": "source", "flavour": "asyncio", "when": rnd.choice(["queued", "running"]), "program": [["beat", 0.02, None]], "cleanup": {"kind": "sync", "dur": 0, "open_gate": "drained"}},
+        {"id": "f0", "flavour": flavour, "when": "queued", "program": [["sleep", 0.3], [how, what]], "cleanup": {"kind": "none"}}],
+        "script": [["wait_running", 8], ["adopt", "source"], ["expect_end", PATIENCE + 2]]}
+    if gen["payloads"][1]["when"] == "queued":
+        gen["script"].pop(1)
+    return {"watchdog": 30, "inject": None, "generations": [gen],
+            "meta": {"kind": "dependent", "fail": [[flavour, how, what, "exception", "queued", True]], "meta_runner": False}}
+
+
 def gen_mixed_case(rnd, spec):
     """Two payloads of one coroutine flavour fail in the very same scheduler tick (both wait on one event of their framework),
     one with an Exception or a return value, the other with a KeyboardInterrupt: a failure has happened, so the run raises."""
@@ -361,6 +380,8 @@ def judge(case, run, result):
             result.count("scenarios_without_observed_failure")
         return []
     result.count("scenarios_with_failure")
+    if case["meta"]["kind"] == "dependent" and run.of("cleanup-done", gen=g, pid="sink"):
+        result.count("failures_beside_a_trio_cleanup_that_waits_for_an_asyncio_payload_to_be_torn_down")
     if case["meta"]["kind"] == "slowclean" and run.of("cleanup-done", gen=g, pid="flusher"):
         result.count("failures_beside_a_trio_cleanup_of_6_s")
     if "executor_jobs" in case["generations"][g].get("tags", []) and run.of("start", gen=g, pid="exjob0"):
@@ -432,7 +453,7 @@ def run_shard(spec):
         gen = lambda i, rep: gen_product_case(core.rng(PID, spec["seed"], "product", i, rep), items[i])  # noqa: E731
     else:
         todo = [(i, 0) for i in range(spec["n"])]
-        g = {"random": gen_random_case, "control": gen_control_case, "rerun": gen_rerun_case, "pending": gen_pending_case, "known": gen_known_case, "mixed": gen_mixed_case, "adopting": gen_adopting_case, "slowclean": gen_slowclean_case}[spec["kind"]]
+        g = {"random": gen_random_case, "control": gen_control_case, "rerun": gen_rerun_case, "pending": gen_pending_case, "known": gen_known_case, "mixed": gen_mixed_case, "adopting": gen_adopting_case, "slowclean": gen_slowclean_case, "dependent": gen_dependent_case}[spec["kind"]]
         gen = lambda i, rep: g(core.rng(PID, spec["seed"], spec["shard"], i), dict(spec, case_index=i))  # noqa: E731
     for i, rep in todo:
         cid = i * 10 + rep
@@ -449,7 +470,7 @@ def run_shard(spec):
 
 
 def finish(total, tier):
-    need = ["scenarios_with_failure", "scenarios_driving_metarunner_directly", "reruns_of_the_same_runner", "strong_clause_checked", "base_clause_checked", "failures_beside_asyncio_payloads_waiting_for_executor_jobs", "failures_beside_a_trio_cleanup_of_6_s", "matched_exception", "matched_return", "control_scenarios",
+    need = ["scenarios_with_failure", "scenarios_driving_metarunner_directly", "reruns_of_the_same_runner", "strong_clause_checked", "base_clause_checked", "failures_beside_asyncio_payloads_waiting_for_executor_jobs", "failures_beside_a_trio_cleanup_of_6_s", "failures_beside_a_trio_cleanup_that_waits_for_an_asyncio_payload_to_be_torn_down", "matched_exception", "matched_return", "control_scenarios",
             "failures_while_a_shutdown_request_was_pending", "failures_beside_trio_payloads_calling_into_asyncio"]
     need += ["reg_" + r for r in REGISTRATIONS] + ["flavour_" + f for f in common.FLAVOURS]
     for name in need:
